@@ -1,4 +1,4 @@
-use crate::util::{get_crate_name, get_repr, IntegerRepr};
+use crate::util::{get_crate_name, get_repr, IntegerRepr, Modifier, Representation};
 use proc_macro2::TokenStream;
 use proc_macro_error2::abort;
 use quote::quote;
@@ -20,12 +20,27 @@ pub fn derive_align1_impl(derive_input: DeriveInput) -> TokenStream {
     }
 }
 
+/// `#[repr(align(N))]` raises the alignment of the type to at least `N`, whatever its fields are,
+/// so `Align1` can never hold for `N > 1`.
+fn reject_over_alignment(repr: &Representation, derive_input: &DeriveInput) {
+    if let Some(Modifier::Align(align)) = repr.modifier {
+        if align > 1 {
+            abort!(
+                derive_input,
+                "Align1 cannot be derived for a type with `#[repr(align({}))]`",
+                align
+            );
+        }
+    }
+}
+
 fn derive_align1_for_struct(
     fields: Fields,
     derive_input: DeriveInput,
     crate_name: &TokenStream,
 ) -> TokenStream {
     let repr = get_repr(&derive_input.attrs);
+    reject_over_alignment(&repr, &derive_input);
     let ident = derive_input.ident;
     let mut gen = derive_input.generics;
     let wc = gen.make_where_clause();
@@ -52,6 +67,7 @@ fn derive_align1_for_enum(
     if repr.repr.as_integer() != Some(IntegerRepr::U8) {
         abort!(derive_input, "Align1 requires repr(u8) for enums");
     }
+    reject_over_alignment(&repr, &derive_input);
 
     let ident = derive_input.ident;
     let (impl_gen, type_gen, where_clause) = derive_input.generics.split_for_impl();
